@@ -51,6 +51,18 @@ def scenarios(tier, seed):
                 if n % 5 == 0:
                     sc["ops"].append({"op": "integrate", "t": P(0.95), "events": [{"kind": "time", "c": P(0.93), "term": True}]})
                 scs.append(sc)
+    # an earlier call FAILED (a fault in the right-hand side, a keyboard interrupt): a later call that a terminal event stops reports
+    # termination by event, as a success - not the old failure
+    for m in ["RK4", "RK45CK", "ABAS5O6H", "RadauIIA5"] + (["DOPRI45", "BackwardEuler", "RK87"] if thorough else []):
+        for (a, b) in ((0.0, 2.0), (2.0, 0.0)):
+            for exc in ("ValueError", "KeyboardInterrupt"):
+                span = b - a
+                sc = gen.with_tol(gen.base(m, a, b, abs(span) / 8.0))
+                sc["dense"] = bool(len(scs) % 2)
+                sc["ops"] = [{"op": "integrate", "t": a + span * 0.4, "fault": 7, "exc": exc},
+                             {"op": "integrate", "events": [{"kind": "time", "c": a + span * 0.3}, {"kind": "time", "c": a + span * 0.7, "term": True}]},
+                             {"op": "integrate"}]
+                scs.append(sc)
     # infinite targets
     for m in ["RK4", "RK45CK", "ABAS5O6H", "BackwardEuler"] + (["DOPRI45", "RadauIIA5"] if thorough else []):
         for (a, inf, c) in ((0.0, float("inf"), 1.3), (1.0, float("-inf"), -0.7), (-4.0, float("inf"), -2.5)):
